@@ -133,4 +133,17 @@ SPEC = {
             {"name": "random", "test": "TestC15", "checks": [800, 8000], "shards": [4, 14], "timeout": [900, 7200]},
         ],
     },
+    "C19": {
+        "level": "exploration",
+        "rule": "the five upstream operation x range matrices (edit-edit 9x10x10, split-split 5x8x8, split-edit 9x2x8, style-style 4x6x6, "
+                "edit-style 7x6x2 = 1592 pairs) re-expressed as data and enumerated x both sync orders x {without, with a third passive client "
+                "that attaches late in a snapshot-threshold project and is fed by a snapshot} = 6368 named cases, each on fresh documents "
+                "through the real server; oracle: no failing step, all replicas' Marshal() equal, and on each replica the user copy's tree XML "
+                "equals the real document's. both tiers run all 6368 cases (exhaustive:true within the matrices). non-trivial = both operations changed the tree on their editor (a merge whose computed range is empty is "
+                "trivial); distinct = distinct case index",
+        "assumptions": ["in-memory database backend", "matrix rows are upstream's (test/complex/tree_concurrency_test.go)"],
+        "parts": [
+            {"name": "matrix", "test": "TestC19", "kind": "enum", "checks": [0, 0], "shards": [8, 14], "timeout": [900, 3600]},
+        ],
+    },
 }
